@@ -482,6 +482,55 @@ def scan_command_replies(src_root, ex: Explorer):
     ex.run(path, 'command-replies')
 
 
+def prove_command_expects_its_ticket(src_root, ex: Explorer):
+    """execute() registers the expectation BEFORE the request is sent (C12.execute.registered-before-send: a fast reply must not be missed).
+    For a command whose reply is identified by a ticket the expectation registered at that moment must therefore already carry the ticket
+    the request is then sent with - "carries the expected field values" means the values of THIS request.  The real
+    build_expected_response and send of every such command are run in the order execute() runs them."""
+    import ast as _ast
+    src, _ = source(src_root)
+    mod = src.module('commands')
+    names = []
+    for c in mod.tree.body:
+        if isinstance(c, _ast.ClassDef) and c.name in COMMAND_REPLIES and 'ticket' in COMMAND_REPLIES[c.name][2]:
+            names.append(c.name)
+
+    def path(ctx: Ctx):
+        if not names:
+            ctx.fail('C12.command.expects-ticket-sent.scan-nonempty', 'no command with a ticket in its reply found')
+            return
+        it = mk(src_root, ctx)
+        name = names[ctx.choose(len(names), 'command')]
+        sent = []
+        net = Stub('network', send_peer_messages=Recorder('send_peer_messages', fn=lambda it2, a, k: sent.extend(a[1:]), is_async=True),
+                   send_server_messages=Recorder('send_server_messages', fn=lambda it2, a, k: sent.extend(a), is_async=True))
+        t0 = ctx.fresh_int('next_ticket')
+
+        class Gen:
+            n = 0
+
+            def pyvc_next(self, it2):
+                Gen.n += 1
+                return Sym(t0 + (Gen.n - 1), 'int')
+        client = Stub('client', network=net, ticket_generator=Gen(), session=Stub('session', user=Stub('user', name='me')))
+        C = cls(it, 'commands', name)
+        import inspect as _inspect
+        init = [f for f in [x for x in mod.tree.body if isinstance(x, _ast.ClassDef) and x.name == name][0].body
+                if isinstance(f, _ast.FunctionDef) and f.name == '__init__']
+        nargs = len(init[0].args.args) - 1 if init else 0
+        cmd = it.call(C, [Sym(ctx.fresh_str(f'arg{i}'), 'str') for i in range(nargs)], {})
+        exp = it.call(it.getattr(cmd, 'build_expected_response'), [client], {})
+        run(it, it.getattr(cmd, 'send'), client)
+        tickets = [m.attrs['ticket'] for m in sent if isinstance(m, Obj) and 'ticket' in m.attrs]
+        fields = exp.attrs.get('fields') if isinstance(exp, Obj) else None
+        got = fields.get('ticket') if isinstance(fields, dict) else None
+        ok = len(tickets) == 1 and got is not None and not callable(got) and ctx.valid(z3int(unbox(got)) == z3int(unbox(tickets[0])))
+        ctx.prove(f'C12.command.expects-ticket-sent[{name}]', ok,
+                  f'{name}: the expectation registered before the send waits for ticket {got!r}, the request is sent with ticket {tickets!r}: '
+                  'the reply to this request never completes it (time-out although the reply arrived)')
+    ex.run(path, 'command-ticket')
+
+
 def prove_place_in_queue_waiter(src_root, ex: Explorer):
     """TransferManager.request_place_in_queue: the reply that answers it comes from that peer and names EXACTLY the remote path of the
     transfer (a peer has several files with the same base name) - a scalar matcher, not a predicate on part of the path"""
@@ -604,6 +653,7 @@ def run_item(src_root, item, tier):
             prove_execute(src_root, ex)
         elif kind == 'commands':
             scan_command_replies(src_root, ex)
+            prove_command_expects_its_ticket(src_root, ex)
         elif kind == 'delivery':
             prove_delivery_relies(src_root, ex)
         elif kind == 'place':
